@@ -699,6 +699,38 @@ def run(chk: Check):
             else:
                 chk.spec_failure("stamp:send_signal-wrong-hash", desc, rep)
 
+    # (7) send_signal of an id before its definition is imported, after, and after a redefinition under the same id
+    late_cases = []
+    for j in range(4 if thorough else 2):
+        sid = 7000 + 3 * j
+        n0 = "LATE_" + ident(rng, 3, 8, upper=True)
+        variants = [n0 + "_V2", n0] if j % 2 == 0 else [n0 + "_RENAMED"]
+        for n1 in variants:
+            revs = []
+            for nm in (n0, n1):
+                sd = dict(kind="signal", name=nm, id=sid, fields=None, reuse=None)
+                other = gen_message(rng, natives, mid=sid + 1)
+                revs.append(dict(files={"root.yaml": yaml_file(consts=consts, aliases=aliases, structs=structs, msgs=[sd, other])},
+                                 root="root.yaml", signal=nm))
+            late_cases.append(dict(late=True, id=sid, revs=revs))
+    for c, r in zip(late_cases, run_client_worker(late_cases)):
+        if r is None or not r["ok"]:
+            chk.broken_obligation("client worker failed on a late-definition case", (r or {}).get("err", "no result")[-600:])
+            continue
+        for f in r["frames"]:
+            frames.append(f)
+            want = int(f["parser_hash"][:8], 16)
+            tag = f"frame:late:{f['step']}:{f['client']}"
+            dist[tag] = dist.get(tag, 0) + 1
+            nontrivial.add(("late", c["id"], c["revs"][-1]["signal"], f["step"], f["client"]))
+            if f["version"] != want:
+                key = {"before-any-definition": "stamp:send_signal-undefined-id-not-zero",
+                       "after-first-import": "stamp:send_signal-definition-imported-later-ignored",
+                       "after-redefinition": "stamp:send_signal-stale-after-redefinition"}[f["step"]]
+                chk.spec_failure(key, f"send_signal({c['id']}) {f['step']} ({f['client']} client): header.version {f['version']:#010x}, "
+                                      f"the definition registered for the id hashes to {want:#010x}",
+                                 dict(late_case=c, frame=f, definitions=[x["files"]["root.yaml"] for x in c["revs"]]))
+
     # model side: every definition seen above through Model/HashText.v + Lib/Sha256.v
     coq_cases = []
     order = list(model_defs.values())
@@ -744,6 +776,17 @@ def run(chk: Check):
 def replay(path: str) -> int:
     d = json.load(open(path))
     r = d["replay"]
+    if isinstance(r, dict) and "late_case" in r:
+        out = run_client_worker([r["late_case"]])[0]
+        for j, y in enumerate(r["definitions"]):
+            print(f"--- definition file {j} ---\n{y}")
+        for f in out["frames"]:
+            want = int(f["parser_hash"][:8], 16)
+            print(f"send_signal({r['late_case']['id']}) {f['step']:24s} {f['client']:9s} client: header.version={f['version']:#010x} "
+                  f"registered definition={want:#010x}  {'ok' if f['version'] == want else 'MISMATCH'}")
+        if not out["ok"]:
+            print(out["err"])
+        return 0
     if isinstance(r, dict) and "case" in r and "revs" in r["case"]:
         out = run_client_worker([r["case"]])[0]
         print("import order:", r["case"]["order"])
